@@ -54,11 +54,8 @@ def r1(cx):
     cx.check(not lossy and from_buf, "C06.R1", "varlink:handle:parser-sees-raw-bytes", "%s %s" % (P.sp, body.path),
              "the message is %s before it is parsed: byte sequences that are not valid UTF-8 are turned into U+FFFD and accepted, so a malformed message is answered instead of closing the connection" % (lossy or "not taken from the read buffer"),
              note_ok="parser input is the read buffer itself (strict UTF-8 validation by serde_json)")
-    ok_edge = None
-    for t in body.calls("=branch"):
-        if any(k == "call" and o is P for k, o in sl.origins(t.args[0])):
-            sw = body.blocks[t.target].term
-            if sw.kind == "switch": ok_edge = variant_edge(sw, 0)
+    from vlib.cfg import question_mark_edges
+    ok_edge, _err = question_mark_edges(body, du, P)
     if ok_edge is None: raise AnchorMissing("handle: `?` on the parser result")
     cn = [t for t in h.call_news]
     cx.floor("C06.R1", "Call::new sites in handle()", len(cn), 1)
